@@ -1324,7 +1324,7 @@ class Emitter:
             if self.payload_variant(p) is not None:
                 return all(x.kind in ("pwild", "pident") or (x.kind == "pref" and x.inner.kind in ("pwild", "pident")) for x in p.elems)
             if self.enum_payload(p) is not None:
-                return all(self.pat_is_ctor_like(x, UNKNOWN) for x in p.elems)
+                return all(self.pat_is_ctor_like(x, UNKNOWN) for x in self.payload_elems(p, len(self.enum_payload(p)[1])))
             return p.segs[-1] in ("Some", "Ok", "Err") and all(self.pat_is_ctor_like(x, UNKNOWN) for x in p.elems)
         if k == "ptuple":
             return all(self.pat_is_ctor_like(x, UNKNOWN) for x in p.elems)
@@ -1366,14 +1366,19 @@ class Emitter:
         if not isinstance(en["payload"][p.segs[-1]], list):
             return None
         tys = en["payload"][p.segs[-1]]
-        rests = [i for i, x in enumerate(p.elems) if x.kind == "prest"]
-        if len(rests) == 1 and len(p.elems) - 1 <= len(tys):
-            # `Variant(..)`, `Variant(a, ..)`: the rest pattern stands for the fields that are not named (wildcards)
-            i = rests[0]
-            p.elems = p.elems[:i] + [N("pwild") for _ in range(len(tys) - len(p.elems) + 1)] + p.elems[i + 1:]
-        if len(tys) != len(p.elems):
+        if len(tys) != len(self.payload_elems(p, len(tys))):
             raise EmitError("pattern %s: %d fields, the vocabulary models %d" % ("::".join(p.segs), len(p.elems), len(tys)))
         return en["variants"][p.segs[-1]], tys
+
+    @staticmethod
+    def payload_elems(p, n):
+        """the sub-patterns of a tuple-struct pattern with `..` written out: `Variant(..)`, `Variant(a, ..)` -- the rest
+        pattern stands for the fields that are not named (wildcards); the AST is not changed"""
+        rests = [i for i, x in enumerate(p.elems) if x.kind == "prest"]
+        if len(rests) == 1 and len(p.elems) - 1 <= n:
+            i = rests[0]
+            return p.elems[:i] + [N("pwild") for _ in range(n - len(p.elems) + 1)] + p.elems[i + 1:]
+        return p.elems
 
     def coq_pattern(self, p, ty, binds):
         """native Gallina pattern; binds collects (rust name, coq name, type)"""
@@ -1429,7 +1434,7 @@ class Emitter:
         if k == "ptstruct":
             ep = self.enum_payload(p)
             if ep is not None:
-                return "(%s %s)" % (ep[0], " ".join(self.coq_pattern(x, t, binds) for x, t in zip(p.elems, ep[1])))
+                return "(%s %s)" % (ep[0], " ".join(self.coq_pattern(x, t, binds) for x, t in zip(self.payload_elems(p, len(ep[1])), ep[1])))
             name = p.segs[-1]
             inner = ty[1] if ty[0] == "opt" else UNKNOWN
             if ty[0] == "res" and name in ("Ok", "Err"):
@@ -1542,7 +1547,7 @@ class Emitter:
         if p.kind == "ptstruct":
             ep = self.enum_payload(p)
             if ep is not None:
-                return any(self.pat_names_nonnative(x, t) for x, t in zip(p.elems, ep[1]))
+                return any(self.pat_names_nonnative(x, t) for x, t in zip(self.payload_elems(p, len(ep[1])), ep[1]))
             inner = ty[1] if ty[0] == "opt" else UNKNOWN
             return any(self.pat_names_nonnative(x, inner) for x in p.elems)
         return False
@@ -1586,7 +1591,7 @@ class Emitter:
         if k == "ptstruct" and self.enum_payload(p) is not None and term is None:
             # data-carrying variant of a native vocabulary enum (`Some(Color::Ansi(c))`)
             ctor, ptys = self.enum_payload(p)
-            return "(%s %s)" % (ctor, " ".join(self.hybrid_pat(x, t, binds, tests) for x, t in zip(p.elems, ptys)))
+            return "(%s %s)" % (ctor, " ".join(self.hybrid_pat(x, t, binds, tests) for x, t in zip(self.payload_elems(p, len(ptys)), ptys)))
         if k == "ptstruct":
             name = p.segs[-1]
             if name not in ("Some", "Ok", "Err") or len(p.elems) != 1:
